@@ -128,6 +128,55 @@ def expand(tokens):
     return d
 
 
+def cli_campaign(chk, tier, r):
+    """cli/yara.c -C and cli/yarac.c: a damaged compiled-rules file given to the command line tool is diagnosed (exit status 1 and a
+    message), with and without -d definitions — never a crash, never a scan. Cut points at relocation-entry boundaries are F9 (library level)."""
+    import subprocess, os, struct
+    b = core.build("plain", cli=True)
+    d = os.path.join(core.OUT, PID, "cli-%d" % os.getpid())
+    os.makedirs(d, exist_ok=True)
+    open(d + "/r.yar", "w").write('rule t { strings: $a = "abc" condition: level > 3 and ($a or filesize >= 0) }\n'
+                                  'rule u { meta: m = "x" strings: $h = { 61 [2-300] 78 } $r = /b+c/ condition: any of them and name == "n" }\n')
+    open(d + "/data", "w").write("xabcx")
+    p = subprocess.run([b["yarac"], "-d", "level=5", "-d", "name=n", d + "/r.yar", d + "/r.yarc"], capture_output=True, text=True)
+    if p.returncode != 0:
+        chk.violation("cli_yarac.json", {"kind": "yarac failed on a valid rule file", "stderr": p.stderr[-500:]})
+        return True
+    img = open(d + "/r.yarc", "rb").read()
+    nbuf = img[5]
+    rel = 6 + 12 * nbuf + sum(struct.unpack_from("<QI", img, 6 + 12 * i)[1] for i in range(nbuf))
+    cuts = {0, 1, 3, 5, 6, 7, 6 + 12 * nbuf - 1, 6 + 12 * nbuf, 6 + 12 * nbuf + 1, rel - 1, len(img) - 1, len(img) - 3}
+    cuts |= {r.randrange(6, rel) for _ in range(8 if tier == "quick" else 120)}
+    cuts |= {rel + 8 * r.randrange((len(img) - rel) // 8) + r.randint(1, 7) for _ in range(6 if tier == "quick" else 60)}   # inside an entry
+    muts = [("cut@%d" % c, img[:c]) for c in sorted(cuts) if 0 <= c < len(img)]
+    for off, vals in ((0, (0x58,)), (1, (0x00,)), (2, (0x72,)), (3, (0x42, 0x00)), (4, (0, 99)), (5, (17, 64, 255))):
+        for v in vals:
+            m = bytearray(img)
+            m[off] = v
+            muts.append(("hdr[%d]=%d" % (off, v), bytes(m)))
+    nviol, n = 0, 0
+    for name, data in muts:
+        f = d + "/m.yarc"
+        open(f, "wb").write(data)
+        for extra in ([], ["-d", "level=5"], ["-d", "level=5", "-d", "name=n", "-s"]):
+            n += 1
+            try:
+                p = subprocess.run([b["yara"], "-C"] + extra + [f, d + "/data"], capture_output=True, text=True, timeout=60)
+                rc, err, out = p.returncode, p.stderr, p.stdout
+            except subprocess.TimeoutExpired:
+                rc, err, out = "timeout", "", ""
+            if rc != 1 or not err.strip() or out.strip():
+                nviol += 1
+                if nviol <= 5:
+                    chk.violation("cli_%d.json" % nviol, {"kind": "damaged compiled-rules file not diagnosed by the command line tool", "mutation": name,
+                                                          "argv": ["yara", "-C"] + extra + ["<damaged file>", "<data>"], "rc": rc, "stderr": err[-400:], "stdout": out[-200:],
+                                                          "image_hex": data.hex() if len(data) < 6000 else None})
+    import shutil
+    shutil.rmtree(d, ignore_errors=True)
+    chk.cov["cli_damaged_files"] = {"invocations": n, "mutations": len(muts), "violations": nviol}
+    return nviol > 0
+
+
 def run(tier, replay=None):
     chk = core.Check(PID, tier)
     th = core.run_translators(["arenalayout"])
@@ -314,6 +363,8 @@ def run(tier, replay=None):
                         viol("corrupted-file-accepted-or-loader-crash", cid, spec, rs, mres.get(spec), {"field": field})
                 else:
                     nontrivial.add((cid, field))
+    if not replay:
+        found |= cli_campaign(chk, tier, r)
     for fid, cnt in sorted(known_seen.items()):
         f = next(x for x in findings if x["id"] == fid.split(":")[0] and (":" not in fid or x["signature"].get("field") == fid.split(":")[1]))
         chk.known(f, "%s: %s (%d mutations this run)" % (fid, f["signature"].get("summary", f["text"][:120]), cnt))
